@@ -24,6 +24,16 @@ pub enum Op {
     MapInPlace,
     /// `append(owned slice with these ids)`
     Append(Vec<u64>),
+    // ---- operations checked by the direct oracles only (not replayed on the model)
+    Reserve(usize),
+    ReserveExact(usize),
+    ShrinkToFit,
+    ExtendWithinClone(usize, usize),
+    ResizeWith(usize),
+    PopIf,
+    DedupByKey,
+    /// `splice(start..end, ids)`, `pulls` × `next()`, drop of the `Splice`
+    Splice(usize, usize, Vec<u64>, usize),
 }
 
 fn script_text(s: &[u8]) -> String {
@@ -31,6 +41,11 @@ fn script_text(s: &[u8]) -> String {
 }
 
 impl Op {
+    /// run a side effect while building the operation (keeps the generator's `match` arms expressions)
+    pub fn also(self, f: impl FnOnce()) -> Op {
+        f();
+        self
+    }
     pub fn name(&self) -> &'static str {
         match self {
             Op::Retain => "retain",
@@ -49,7 +64,19 @@ impl Op {
             Op::IntoIter(_) => "into_iter",
             Op::MapInPlace => "map_in_place",
             Op::Append(_) => "append",
+            Op::Reserve(_) => "reserve",
+            Op::ReserveExact(_) => "reserve_exact",
+            Op::ShrinkToFit => "shrink_to_fit",
+            Op::ExtendWithinClone(..) => "extend_from_within_clone",
+            Op::ResizeWith(_) => "resize_with",
+            Op::PopIf => "pop_if",
+            Op::DedupByKey => "dedup_by_key",
+            Op::Splice(..) => "splice",
         }
+    }
+    /// is the operation replayed on the Lean model (correspondence), or checked by the oracles only?
+    pub fn modelled(&self) -> bool {
+        !matches!(self, Op::Reserve(_) | Op::ReserveExact(_) | Op::ShrinkToFit | Op::ExtendWithinClone(..) | Op::DedupByKey | Op::Splice(..))
     }
     /// does the operation take the vector by value?
     pub fn consumes(&self) -> bool {
@@ -68,11 +95,18 @@ impl Op {
             Op::IntoIter(sc) => format!(" s={}", script_text(sc)),
             Op::MapInPlace => String::new(),
             Op::Append(ids) => format!(" src={}", csv(ids)),
+            Op::Reserve(n) | Op::ReserveExact(n) | Op::ResizeWith(n) => format!(" {n}"),
+            Op::ShrinkToFit | Op::PopIf | Op::DedupByKey => String::new(),
+            Op::ExtendWithinClone(a, b) => format!(" {a} {b}"),
+            Op::Splice(a, b, ids, k) => format!(" {a} {b} src={} pulls={k}", csv(ids)),
         }
     }
     /// does the operation need spare capacity / is it unavailable on `BumpBox<[T]>`?
     pub fn grows(&self) -> bool {
-        matches!(self, Op::Push(_) | Op::Insert(..) | Op::ExtendClone(_) | Op::Resize(..) | Op::Append(_))
+        matches!(
+            self,
+            Op::Push(_) | Op::Insert(..) | Op::ExtendClone(_) | Op::Resize(..) | Op::Append(_) | Op::Reserve(_) | Op::ReserveExact(_) | Op::ExtendWithinClone(..) | Op::ResizeWith(_) | Op::Splice(..)
+        )
     }
     /// number of additional elements the operation needs room for (given the current length)
     pub fn additional(&self, len: usize) -> usize {
@@ -82,6 +116,10 @@ impl Op {
             Op::ExtendClone(n) => *n,
             Op::Resize(n, _) => n.saturating_sub(len),
             Op::Append(ids) => ids.len(),
+            Op::Reserve(n) | Op::ReserveExact(n) => *n,
+            Op::ExtendWithinClone(a, b) => if a <= b && *b <= len { b - a } else { 0 },
+            Op::ResizeWith(n) => n.saturating_sub(len),
+            Op::Splice(a, b, ids, _) => if a <= b && *b <= len { ids.len().saturating_sub(b - a) } else { 0 },
             _ => 0,
         }
     }
@@ -229,6 +267,52 @@ pub fn std_apply(v: &mut Vec<u64>, op: &Op, o: &[Oc]) -> Result<(String, usize),
             v.extend_from_slice(ids);
             String::new()
         }
+        Op::Reserve(_) | Op::ReserveExact(_) | Op::ShrinkToFit => String::new(),
+        Op::ExtendWithinClone(a, b) => {
+            if a > b || *b > v.len() {
+                return Err(());
+            }
+            for _ in *a..*b {
+                v.push(next());
+            }
+            String::new()
+        }
+        Op::ResizeWith(n) => {
+            if *n <= v.len() {
+                v.truncate(*n);
+            } else {
+                for _ in 0..(*n - v.len()) {
+                    v.push(next());
+                }
+            }
+            String::new()
+        }
+        Op::PopIf => {
+            if v.is_empty() {
+                "none".into()
+            } else if next() != 0 {
+                format!("some:{}", v.pop().unwrap())
+            } else {
+                "none".into()
+            }
+        }
+        Op::DedupByKey => {
+            v.dedup_by_key(|_| next());
+            String::new()
+        }
+        Op::Splice(a, b, ids, pulls) => {
+            if a > b || *b > v.len() {
+                return Err(());
+            }
+            let mut ys = Vec::new();
+            {
+                let mut sp = v.splice(*a..*b, ids.iter().copied());
+                for _ in 0..*pulls {
+                    ys.push(sp.next().map_or("none".to_string(), |x| x.to_string()));
+                }
+            }
+            if ys.is_empty() { "-".to_string() } else { ys.join("/") }
+        }
     };
     drop(next);
     Ok((r, consumed.get()))
@@ -308,7 +392,20 @@ macro_rules! impl_vecdyn {
                 $s.append(src);
                 String::new()
             }
-            _ => unreachable!("operation not wired"),
+            Op::Reserve(n) => {
+                $s.reserve(*n);
+                String::new()
+            }
+            Op::ExtendWithinClone(a, b) => {
+                $s.extend_from_within_clone(*a..*b);
+                String::new()
+            }
+            Op::ResizeWith(n) => {
+                $s.resize_with(*n, $T::gen_cb);
+                String::new()
+            }
+            Op::PopIf => opt_text($s.pop_if($T::pred)),
+            other => $s.extra(other),
         }
     };
     (@grow $s:ident, $op:ident, $T:ident, no) => {
@@ -374,6 +471,10 @@ macro_rules! impl_vecdyn {
                         }
                         t
                     }
+                    Op::DedupByKey => {
+                        s.dedup_by_key($T::key_cb);
+                        String::new()
+                    }
                     Op::ExtractIf(calls) => {
                         let mut it = s.extract_if($T::pred);
                         let mut ids = Vec::new();
@@ -418,6 +519,63 @@ macro_rules! impl_vecdyn {
         }
     };
 }
+
+/// operations that only some of the growing types have
+pub trait Extra {
+    fn extra(&mut self, op: &Op) -> String;
+}
+impl<'a, T: Elem> Extra for FixedBumpVec<'a, T> {
+    fn extra(&mut self, op: &Op) -> String {
+        unreachable!("operation {:?} is not available on FixedBumpVec", op)
+    }
+}
+macro_rules! impl_extra {
+    ($S:ty) => {
+        impl<'a, T: Elem> Extra for BumpVec<T, &'a Bump<Global, $S>> {
+            fn extra(&mut self, op: &Op) -> String {
+                match op {
+                    Op::ReserveExact(n) => {
+                        self.reserve_exact(*n);
+                        String::new()
+                    }
+                    Op::ShrinkToFit => {
+                        self.shrink_to_fit();
+                        String::new()
+                    }
+                    Op::Splice(a, b, ids, pulls) => {
+                        let src: Vec<T> = ids.iter().map(|i| T::make(*i)).collect();
+                        let mut sp = self.splice(*a..*b, src);
+                        let mut ys = Vec::new();
+                        for _ in 0..*pulls {
+                            ys.push(match sp.next() {
+                                None => "none".to_string(),
+                                Some(e) => val_text(e),
+                            });
+                        }
+                        drop(sp);
+                        if ys.is_empty() { "-".to_string() } else { ys.join("/") }
+                    }
+                    other => unreachable!("operation {:?} is not available on BumpVec", other),
+                }
+            }
+        }
+        impl<'a, T: Elem> Extra for MutBumpVec<T, &'a mut Bump<Global, $S>> {
+            fn extra(&mut self, op: &Op) -> String {
+                match op {
+                    Op::ReserveExact(n) => {
+                        self.reserve_exact(*n);
+                        String::new()
+                    }
+                    other => unreachable!("operation {:?} is not available on MutBumpVec", other),
+                }
+            }
+        }
+    };
+}
+impl_extra!(S1U);
+impl_extra!(S1D);
+impl_extra!(S8U);
+impl_extra!(S16D);
 
 /// an element of a borrowed source slice (`extend_from_slice_clone`): same layout as `T`, but it is
 /// neither created through `Elem::make` nor dropped, so it stays out of the drop accounting
@@ -496,6 +654,19 @@ macro_rules! impl_vecdyn_rev {
                         s.append(src);
                         String::new()
                     }
+                    Op::Reserve(n) => {
+                        s.reserve(*n);
+                        String::new()
+                    }
+                    Op::ReserveExact(n) => {
+                        s.reserve_exact(*n);
+                        String::new()
+                    }
+                    Op::ResizeWith(n) => {
+                        s.resize_with(*n, T::gen_cb);
+                        String::new()
+                    }
+                    Op::PopIf => opt_text(s.pop_if(T::pred)),
                     other => unreachable!("operation {:?} is not available on MutBumpVecRev", other),
                 }
             }
@@ -605,6 +776,28 @@ pub fn std_apply_rev(v: &mut Vec<u64>, op: &Op, o: &[Oc]) -> Result<(String, usi
             }
             d.clear();
             if ys.is_empty() { "-".to_string() } else { ys.join("/") }
+        }
+        Op::Reserve(_) | Op::ReserveExact(_) => String::new(),
+        Op::ResizeWith(n) => {
+            if *n <= d.len() {
+                while d.len() > *n {
+                    d.pop_front();
+                }
+            } else {
+                for k in 0..(*n - d.len()) {
+                    d.push_front(vals[k]);
+                    used += 1;
+                }
+            }
+            String::new()
+        }
+        Op::PopIf => {
+            if d.is_empty() {
+                "none".into()
+            } else {
+                used += 1;
+                if vals[0] != 0 { format!("some:{}", d.pop_front().unwrap()) } else { "none".into() }
+            }
         }
         other => unreachable!("operation {:?} has no MutBumpVecRev reference", other),
     };
